@@ -32,7 +32,8 @@ class EigStub:
         Ad, Md = dense(ctx, A), dense(ctx, M)
         n = Ad.shape[0]
         # contract stub in both modes: the returned pair is arbitrary (fresh symbols / random numbers)
-        lam = ctx.array("lam", (self.k,), 0.01, 100)
+        # eigenvalues of any positive size (also far below 1e-8: soft, heavy bodies in SI units)
+        lam = ctx.array("lam", (self.k,), 1e-14, 100)
         V = ctx.array("V", (n, self.k), -1, 1)
         self.calls.append({"A": Ad, "M": Md, "sigma": sigma, "lam": lam, "V": V})
         return lam, V
@@ -118,6 +119,34 @@ def case_pencil(ctx, variant):
         exp[dof1] = np.asarray(call["V"])[:, k_]
         ctx.equal("mode_%d_is_eigenvector_on_free_and_zero_on_prescribed_unknowns" % k_, vals, exp)
         ctx.equal("mode_%d_frequency_squared" % k_, freq * freq * (2 * np.pi) ** 2, np.asarray(call["lam"])[k_], tol=1e-9, box={"atom:root": (0, 11)})
+        # (a frequency reported as exactly zero for a positive eigenvalue would pass an absolute test on the square for tiny eigenvalues)
+        lam_k = np.asarray(call["lam"])[k_]
+        ctx.holds("mode_%d_frequency_is_positive_for_a_positive_eigenvalue" % k_, [freq > 0] if ctx.sym else [bool(freq > 0)])
+
+
+def case_fresh_instances(ctx):
+    """two analyses created one after the other without a boundary dictionary do not share one: a boundary added to the first
+    does not constrain the second"""
+    with ctx.concrete():
+        m = tiny_mesh("quad4x2")
+        region = fem.RegionQuad(m)
+        field = fem.FieldContainer([fem.FieldPlaneStrain(region, dim=2)])
+        mask = np.zeros(m.npoints, dtype=bool)
+        mask[[0, 3]] = True
+    E, rho = ctx.var("E", 0.5, 5), ctx.var("rho", 0.1, 5)
+    field[0].values = ctx.const_array(field[0].values)
+    body = fem.SolidBody(fem.LinearElastic(E=E, nu=0.25), field, density=rho)
+    first = fem.FreeVibration([body])
+    first.boundaries["fix"] = fem.Boundary(field[0], mask=mask)
+    second = fem.FreeVibration([body])
+    stub = EigStub(ctx)
+    second.evaluate(solver=stub)
+    n = field[0].values.size
+    ctx.check_concrete("second_analysis_has_no_boundaries", len(second.boundaries) == 0, "boundaries of the second analysis: %s" % list(second.boundaries))
+    ctx.check_concrete("second_analysis_is_unconstrained", stub.calls[-1]["A"].shape == (n, n), "eigen-solver got %s" % (stub.calls[-1]["A"].shape,))
+    K = dense(ctx, body.assemble.matrix())
+    if stub.calls[-1]["A"].shape == (n, n):
+        ctx.equal("unconstrained_stiffness_given_to_eigensolver", stub.calls[-1]["A"], K, tol=1e-12)
 
 
 def case_rigid_modes(ctx, dim):
@@ -172,6 +201,7 @@ def case_rigid_invariance(ctx):
 
 def cases(tier):
     out = [("pencil", case_pencil, {"variant": v}) for v in ("single", "two_items", "multiplier_first", "three_items", "mixed", "x0", "axisymmetric")]
+    out.append(("fresh_instances", case_fresh_instances, {}))
     out.append(("rigid_modes", case_rigid_modes, {"dim": 2}))
     out.append(("rigid_modes", case_rigid_modes, {"dim": 3}))
     if tier == "thorough":
